@@ -37,6 +37,10 @@ int  mc_state(uint64_t h, int rem_depth);
 void mc_observe(const char *fmt, ...) __attribute__((format(printf,1,2)));
 void mc_fail(const char *key, const char *fmt, ...) __attribute__((format(printf,2,3)));
 int  mc_failed(void);            /* did the current execution call mc_fail? */
+/* Give up the current execution after a recorded failure when it cannot be
+ * unwound (deadlocked threads...).  The worker process ends and is respawned at
+ * the next vector; in --replay mode the process prints its result and exits. */
+void mc_abort_execution(void) __attribute__((noreturn));
 void mc_count_id(int *idp, const char *name, uint64_t n);
 #define MC_COUNT(name) do { static int mc_cid_ = -1; mc_count_id(&mc_cid_, name, 1); } while (0)
 #define MC_COUNTN(name, n) do { static int mc_cid_ = -1; mc_count_id(&mc_cid_, name, (n)); } while (0)
